@@ -347,6 +347,22 @@ def rsEntryOrInsert {κ ν} [DecidableEq κ] (m : List (κ × ν)) (k : κ) (v :
 def rsStripSuffix (p s : List Nat) : Option (List Nat) :=
   if p.length ≤ s.length ∧ s.drop (s.length - p.length) = p then some (s.take (s.length - p.length)) else none
 
+/-- `reader.read(buf)` for a reader that still has `chunks` to deliver: `Ok(0)` at the end of input (or into an empty
+buffer), else the first `min(len(chunk), len(buf))` bytes of the next chunk into the front of `buf`; what is left of the
+chunk stays first in line.  Empty chunks are skipped (a `Read` returns `Ok(0)` only at the end).
+Returns (bytes read, buffer, remaining chunks). -/
+def rsReaderRead : List (List Nat) → List Nat → Nat × List Nat × List (List Nat)
+  | [], buf => (0, buf, [])
+  | c :: cs, buf =>
+    if c = [] then rsReaderRead cs buf
+    else
+      let k := min c.length buf.length
+      (k, c.take k ++ buf.drop k, if k < c.length then c.drop k :: cs else cs)
+
+/-- `dst[a..b].copy_from_slice(src)`: panics unless `a ≤ b ≤ dst.len()` and `src.len() = b - a` -/
+def rsCopyInto {α} (dst : List α) (a b : Nat) (src : List α) : Res (List α) :=
+  if a ≤ b ∧ b ≤ dst.length ∧ src.length = b - a then .ok (dst.take a ++ src ++ dst.drop b) else .error .panic
+
 /-- lexicographic `<` on pairs, the `Ord` of `(u32, u32)` -/
 def ltPair (a b : Nat × Nat) : Bool := decide (a.1 < b.1 ∨ (a.1 = b.1 ∧ a.2 < b.2))
 
